@@ -195,7 +195,8 @@ namespace
                         try
                         {
                             if (k == V_PUSH) x.push_back(e);
-                            else x.emplace_back(val);
+                            else if (mod(arg(o, 2), 2)) x.emplace_back(val);
+                            else x.emplace_back(e); // a named (non-const) object: it is copied, the caller keeps its value
                         }
                         catch (const tracked::Boom &)
                         {
@@ -203,6 +204,7 @@ namespace
                             probe("append_with_throwing_constructor");
                         }
                         tracked::reg().throw_after = 0;
+                        if (val_of(e) != val) violate("C02/argument-modified", "the object passed to %s as an lvalue holds %d afterwards, it held %d (it was moved from instead of copied)", V_NAME[k], val_of(e), val);
                         if (!thrown) mx.push_back(val);
                         break;
                     }
